@@ -3,8 +3,9 @@ use dusk_plonk::prelude::*;
 pub fn fr_of_hex(s: &str) -> BlsScalar {
     // 64 hex chars, big-endian, canonical
     let mut bytes = [0u8; 32];
-    let s = s.as_bytes();
-    assert!(s.len() == 64, "scalar must be 64 hex chars");
+    let padded = format!("{:0>64}", s);
+    let s = padded.as_bytes();
+    assert!(s.len() == 64, "scalar must be at most 64 hex chars");
     for i in 0..32 {
         let hi = (s[2 * i] as char).to_digit(16).expect("hex") as u8;
         let lo = (s[2 * i + 1] as char).to_digit(16).expect("hex") as u8;
@@ -20,7 +21,8 @@ pub fn hex_of_fr(x: &BlsScalar) -> String {
     for i in (0..32).rev() {
         s.push_str(&format!("{:02x}", b[i]));
     }
-    s
+    let t = s.trim_start_matches('0');
+    if t.is_empty() { "0".to_string() } else { t.to_string() }
 }
 
 pub fn panic_msg(e: Box<dyn std::any::Any + Send>) -> String {
